@@ -13,6 +13,8 @@ SAFE_NAMES = ["a", "b", "c", "d", "e"]
 CORENAMED = {"e", "a_b", "a_x"}      # components whose class is called Other and carries _core_name
 FUEL = 200000
 RUNAWAY = 300                    # more log events than this in one case: user code stops doing anything, the case fails
+CB_KINDS = ["exec", "compiled", "lambda", "partial", "typemethod", "method", "callable", "builtin_raise"]
+D31_KINDS = ["exec_bare", "partial_unnamed"]      # callables without __name__ / with __module__ None (repair D31)
 OPAQUE = "<opaque>"               # the one "component" a non-indexable dependency object stands for
 
 class ScriptError(Exception):
@@ -68,6 +70,7 @@ class Env:
         self.evclasses = {}
         self.opi = -1
         self.listen_order = []
+        self.api_exc = []             # [api, waiter id or component, exception class, callback kind] of calls that raised
         self.silent = []              # waiters whose invocation the harness cannot observe (callback None, sink without _all_dependencies_met)
         pc = chk.pox_core
         real = chk.recoco.Scheduler
@@ -184,6 +187,18 @@ class Env:
             self.do_act(a, going_up_event)
 
     def do_act(self, a, going_up_event=None):
+        """one act; an exception that escapes from register / call_when_ready / listen_to_dependencies themselves is recorded"""
+        k = a["a"]
+        if k not in ("register", "declare", "listen"):
+            return self._do_act(a, going_up_event)
+        wid = self.next_id
+        try:
+            return self._do_act(a, going_up_event)
+        except Exception as e:
+            self.api_exc.append([k, wid if k != "register" else a["n"], type(e).__name__, a.get("cb", "")])
+            raise
+
+    def _do_act(self, a, going_up_event=None):
         core, k = self.core, a["a"]
         if k == "register":
             name, via = a["n"], a.get("via", "register")
@@ -196,7 +211,7 @@ class Env:
         elif k == "declare":
             wid = self.next_id; self.next_id += 1
             deps, ct, body = list(a["deps"]), a.get("ctype", "list"), a["body"]
-            self.decls.append([wid, "declare:" + ct + ":%d" % len(deps), sorted(set(deps)), self.opi])
+            self.decls.append([wid, "declare:" + ct + ":%d" % len(deps), sorted(set(deps)), self.opi, a.get("cb", "func")])
             arg = {"list": list, "tuple": tuple, "set": set}.get(ct, list)(deps)
             if ct == "str": arg = deps[0]
             env = self
@@ -207,17 +222,38 @@ class Env:
             elif ct == "opaque":
                 arg = frozenset(deps)                # not indexable: call_when_ready takes the object itself as one name
                 self.decls[-1][2] = [OPAQUE]
+            def run_cb(*args, **kw):
+                if env.fired(wid): env.in_callback(wid, body)
             if kind == "method":
                 class Holder(object):
                     def callback(self_, *args, **kw):
                         if env.fired(wid): env.in_callback(wid, body)
                 cb = Holder().callback
+            elif kind == "typemethod":                # bound method of a class made with type()
+                cb = type("Made%d" % wid, (object,), {"callback": lambda self_, *args, **kw: run_cb()})().callback
             elif kind == "callable":
                 class Callable(object):
                     __name__ = None                   # call_when_ready falls back to str(callback)
                     def __call__(self_, *args, **kw):
                         if env.fired(wid): env.in_callback(wid, body)
                 cb = Callable()
+            elif kind == "lambda":
+                cb = lambda *args, **kw: run_cb()
+            elif kind in ("exec", "exec_bare", "compiled"):
+                # a Python function whose source text inspect cannot find (console input, generated code, .pyc-only install)
+                src = "def generated_cb(*args, **kw):\n  if env.fired(wid): env.in_callback(wid, body)\n"
+                ns = {"env": env, "wid": wid, "body": body, "__name__": "generated"}
+                if kind == "exec_bare": del ns["__name__"]         # then the function's __module__ is None
+                if kind != "compiled": exec(src, ns)
+                else: exec(compile(src, "/nonexistent/generated_%d.py" % wid, "exec"), ns)
+                cb = ns["generated_cb"]
+            elif kind in ("partial", "partial_unnamed"):   # a partial has no __name__
+                import functools
+                cb = functools.partial(run_cb, wid)
+            elif kind == "builtin_raise":             # a C function that raises when called; the harness cannot see it being called
+                import operator
+                cb = operator.truediv
+                self.silent.append(wid)
             elif kind == "none":
                 cb = None
                 self.silent.append(wid)
@@ -226,10 +262,14 @@ class Env:
                     if args != tuple(a.get("args", ())) : raise AssertionError("args not passed through")
                     if env.fired(wid): env.in_callback(wid, body)
             self.keep.append(cb)
-            self.cb_ids[id(cb.__func__) if kind == "method" else id(cb)] = wid
+            self.cb_ids[id(cb.__func__) if kind in ("method", "typemethod") else id(cb)] = wid
             kwargs = {}
-            if a.get("named") or kind == "none": kwargs["name"] = "w%d" % wid
+            if a.get("named") or kind in ("none", "partial"): kwargs["name"] = "w%d" % wid
             if kind == "func" and a.get("args"): kwargs["args"] = tuple(a["args"])
+            if kind == "builtin_raise":
+                kwargs["args"] = tuple([wid + 1, 0])                  # truediv(wid + 1, 0) -> ZeroDivisionError
+                self.keep.append(kwargs["args"]); self.cb_ids[id(kwargs["args"])] = wid
+                del self.cb_ids[id(cb)]
             core.call_when_ready(cb, arg, **kwargs)
         elif k == "listen":
             wid = self.next_id; self.next_id += 1
@@ -239,7 +279,7 @@ class Env:
             self.listen_order.append([a["sink"], wid])
             if s.get("met") is None: self.silent.append(wid)
             want = set(s["explicit"]) | set(c for c in map(handler_component, s["attrs"]) if c is not None)
-            self.decls.append([wid, "listen", sorted(want), self.opi])
+            self.decls.append([wid, "listen", sorted(want), self.opi, "sink"])
             ex, ct = s["explicit"], s.get("ctype", "list")
             if ct == "none": arg = None
             elif ct == "str": arg = ex[0]
@@ -287,6 +327,7 @@ class Env:
         f = getattr(cb, "__func__", cb)
         if id(f) in self.cb_ids: return self.cb_ids[id(f)]
         if args and id(args[0]) in self.cb_ids: return self.cb_ids[id(args[0])]
+        if id(args) in self.cb_ids: return self.cb_ids[id(args)]
         m = re.match(r"^w(\d+)$", str(name))
         return int(m.group(1)) if m else -1
 
@@ -328,7 +369,7 @@ class Env:
             threading.Thread, time.sleep, gc.collect, pc.log = saved
         return {"log": self.log, "marks": marks, "after": after, "op_exc": op_exc, "decls": self.decls,
                 "comps": list(self.core.components), "pending": pending, "outstanding": internal_out,
-                "hits": sorted(self.hits), "sink_attrs": sink_attrs, "listen_order": self.listen_order, "silent": self.silent, "runaway": self.runaway}
+                "hits": sorted(self.hits), "sink_attrs": sink_attrs, "listen_order": self.listen_order, "silent": self.silent, "runaway": self.runaway, "api_exc": self.api_exc}
 
 
 def segments(log, marks):
@@ -583,6 +624,27 @@ class C08(Check):
                       DECL(["a"], 0, ctype="opaque"), DECL(["openflow"], 0), REG("a"), REG("b"), REG("openflow")], bodies=[[], [RAISE]])
         yield mkcase([REG("a"), DECL(["a"], 0, cb="none"), DECL(["a", "b"], 0, cb="callable", ctype="deque"), REG("b")], bodies=[[REG("c")]])
 
+    def _callback_kind_cases(self):
+        """a failing callback is a failing callback: every kind of callable (also ones whose source inspect cannot find), failing
+        before / after it registered something, ahead of and behind other waiters that become ready in the same operation;
+        declaration first and registration first"""
+        for kind in ["func"] + CB_KINDS:
+            for bad in ([RAISE], [REG("y"), RAISE]):
+                bodies = [[], bad, [REG("z")]]
+                ws = [DECL([], 0), DECL(["x"], 1, cb=kind), DECL(["x"], 0), DECL(["x", "y"], 2, cb=kind), DECL(["x", "y"], 0)]
+                yield mkcase(ws + [REG("x"), REG("y")], bodies=bodies)
+                yield mkcase([ws[2], ws[1], ws[4], ws[3], REG("y"), REG("x")], bodies=bodies)
+                yield mkcase([REG("x")] + ws + [REG("y")], bodies=bodies)
+                yield mkcase([REG("x"), REG("y")] + ws[1:], bodies=bodies)
+                yield mkcase([DECL(["x"], 3), REG("x")], bodies=[[], bad, [], [DECL(["x"], 1, cb=kind), DECL(["x"], 0), REG("y")]])
+                yield mkcase([GOUP, DECL(["x"], 1, cb=kind), DECL(["x"], 0), GET, REG("x")], bodies=bodies, onUp=[DECL([], 1, cb=kind, ctype="set")])
+
+    def _d31_cases(self):
+        for kind in D31_KINDS:
+            yield mkcase([DECL(["x"], 0, cb=kind), REG("x")], bodies=[[]])
+            yield mkcase([REG("x"), DECL(["x"], 1, cb=kind), DECL(["x"], 0)], bodies=[[], [RAISE]])
+            yield mkcase([DECL(["x"], 1), REG("x")], bodies=[[], [DECL(["x"], 2, cb=kind), REG("y")], [RAISE]])
+
     def corpus(self):
         cases = []
         for nr in range(4):
@@ -593,6 +655,8 @@ class C08(Check):
         cases += list(self._quit_cases())
         cases += list(self._sink_cases())
         cases += list(self._misc_cases())
+        cases += list(self._callback_kind_cases())
+        cases += list(self._d31_cases())
         return cases
 
     def _random_case(self, rng, big):
@@ -627,6 +691,7 @@ class C08(Check):
             elif r < 0.3: a["args"] = [rng.randint(0, 9)]
             elif r < 0.35: a["cb"] = "callable"
             elif r < 0.38: a["cb"] = "none"
+            elif r < 0.70: a["cb"] = rng.choice(CB_KINDS + D31_KINDS[:1] if rng.random() < 0.9 else D31_KINDS)          # the kind of callable must not matter, least of all when it fails
             if d and rng.random() < 0.05: a["ctype"] = "deque"
             return a
         def new_body():
@@ -693,15 +758,16 @@ class C08(Check):
             return Env(self, case).run()
 
     def model_request(self, case):
-        nb = len(case["bodies"])              # body nb: the empty body of `callback=None` waiters
+        nb = len(case["bodies"])              # body nb: the empty body of `callback=None` waiters; nb+1: a C function that raises
         def act(a):
             r = {k: v for k, v in a.items() if k in ("a", "n", "deps", "body", "sink", "k")}
             if a["a"] == "declare":
                 if a.get("cb") == "none": r["body"] = nb
+                if a.get("cb") == "builtin_raise": r["body"] = nb + 1
                 if a.get("ctype") == "opaque": r["deps"] = [OPAQUE]
             return r
         return {"repaired": True, "fuel": FUEL,
-                "bodies": [[act(a) for a in b] for b in case["bodies"]] + [[]],
+                "bodies": [[act(a) for a in b] for b in case["bodies"]] + [[], [{"a": "raise"}]],
                 "onGoingUp": [act(a) for a in case["onGoingUp"]], "onUp": [act(a) for a in case["onUp"]],
                 "onGoingDown": [act(a) for a in case["onGoingDown"]], "onDown": [act(a) for a in case["onDown"]],
                 "sinks": [{"attrs": s["attrs"], "explicit": s["explicit"], "met": s.get("met")} for s in case["sinks"]],
@@ -720,9 +786,9 @@ class C08(Check):
     def model_obs(self, case, resp):
         if "error" in resp: return resp
         silent = set(s["id"] for s in resp["sinks"] if case["sinks"][s["sink"]].get("met") is None)
-        silent |= set(i for i, b in resp["decls"] if b == len(case["bodies"]))
+        silent |= set(i for i, b in resp["decls"] if b in (len(case["bodies"]), len(case["bodies"]) + 1))
         segs = segments(resp["log"], resp["marks"])
-        segs = [[e for e in s if not (e[0] == "fired" and e[1] in silent)] for s in segs]
+        segs = [[e for e in s if not (e[0] in ("fired", "failed") and e[1] in silent)] for s in segs]
         wired = {}
         for s in resp["sinks"]:
             for b in s["bound"]:
@@ -741,7 +807,10 @@ class C08(Check):
                 "callback-reinvoked" if len(twice) != len(set(twice)) else "events", RUNAWAY, TW_LIMIT)
         # ---- D30: an empty list / tuple of dependencies (checked first: the TypeError variant poisons every later register)
         early_fired = set(e[1] for e in log if e[0] == "fired")
-        for wid, kind, deps, opi in obs["decls"]:
+        for api, who, exc, cbkind in obs["api_exc"]:
+            if api == "declare" and cbkind in D31_KINDS and exc in ("TypeError", "AttributeError"):
+                return "call_when_ready:callback-without-name-or-module | waiter %s (%s callback) rejected: call_when_ready raised %s" % (who, cbkind, exc)
+        for wid, kind, deps, opi, cbkind in obs["decls"]:
             m = re.match(r"declare:(list|tuple):0$", kind)
             if m and wid not in obs["silent"]:
                 end = marks[opi] if opi < len(marks) else len(log)
@@ -767,6 +836,8 @@ class C08(Check):
                 if missing:
                     return "waiter:fired-early | waiter %d called without %s registered" % (wid, ",".join(missing))
         silent = set(obs["silent"])
+        for api, who, exc, cbkind in obs["api_exc"]:
+            return "contain:%s-raised:%s | %s(%s) raised %s to its caller" % (api, exc, api, who, exc)
         for i, op in enumerate(ops):
             if obs["op_exc"][i] is not None and op["a"] in ("register", "declare", "listen"):
                 return "contain:%s-raised:%s | %s raised %s to its caller" % (op["a"], obs["op_exc"][i], op["a"], obs["op_exc"][i])
